@@ -70,6 +70,8 @@ namespace c15
         bool set_size_cursor(unsigned, unsigned) override { return false; }
         int backspace(unsigned n) override { return sline_backspace(&s, n); }
         int del(unsigned n) override { return sline_delete(&s, n); }
+        int backspace_i(int n) override { return sline_backspace(&s, (unsigned int)n); }
+        int del_i(int n) override { return sline_delete(&s, (unsigned int)n); }
         int left() override { return sline_left(&s); }
         int right() override { return sline_right(&s); }
         void reset() override { sline_reset(&s); }
@@ -774,6 +776,18 @@ static const std::vector<std::string> ALPHA_BYTES = {"a", "b", "\x08", "\r", "\n
 static const std::vector<std::string> ALPHA_KEYS = {"a", "b", "\x08", "\r", "\n", "\x1b[A", "\x1b[B", "\x1b[D", "\x1b[C", "\x1b[3~", "\x03"};
 
 // ===================================================================== run
+// which region of the count parameter an op reached (round 3b: the whole range of the C type)
+static void count_tags(out &o, const char *what, unsigned n, size_t cursor, size_t there, bool as_int)
+{
+    std::string w(what);
+    if (n == there) o.tag((w + "-count-exact").c_str());
+    if ((size_t)n == there + 1) o.tag((w + "-count-one-more").c_str());
+    if (n > 0x7fffffffu) o.tag((w + "-count-gt-INT_MAX").c_str());
+    if (n == 0xffffffffu) o.tag((w + "-count-UINT_MAX").c_str());
+    if (cursor && (uint64_t)cursor + n > 0xffffffffull) o.tag((w + "-cursor+count-wraps").c_str());
+    if (as_int) o.tag((w + ((int)n < 0 ? "-int-negative" : "-int")).c_str());
+}
+
 static void run_sl(const std::vector<std::string> &w, out &o)
 {
     bool cxx = w[1] == "x";
@@ -882,26 +896,36 @@ static void run_sl(const std::vector<std::string> &w, out &o)
             break;
         }
         case 'b':
+        case 'B':
         {
-            unsigned n = (unsigned)strtoul(arg.c_str(), 0, 10);
-            int r = s->backspace(n);
+            // b<unsigned>: the count as the unsigned int of sline_backspace; B<int>: as an int through
+            // igris::sline::backspace(int) (-1 = UINT_MAX, "everything left of the cursor")
+            bool as_int = t[0] == 'B';
+            unsigned n = as_int ? (unsigned)(int)strtol(arg.c_str(), 0, 10) : (unsigned)strtoul(arg.c_str(), 0, 10);
+            size_t cur0 = L.size();
+            int r = as_int ? s->backspace_i((int)n) : s->backspace(n);
             size_t k = std::min<size_t>(n, L.size());
             L.erase(L.size() - k);
-            if (r != (int)k) fail("backspace result");
+            if (r != (int)k) fail("backspace removed " + std::to_string(r) + " characters, min(count, cursor) = " + std::to_string(k));
             if (k && !R.empty()) o.tag("backspace-midline");
             if (k < n) o.tag("backspace-clamped");
+            count_tags(o, "backspace", n, cur0, cur0, as_int);
             ret = std::to_string(r);
             break;
         }
         case 'd':
+        case 'D':
         {
-            unsigned n = (unsigned)strtoul(arg.c_str(), 0, 10);
-            int r = s->del(n);
+            bool as_int = t[0] == 'D';
+            unsigned n = as_int ? (unsigned)(int)strtol(arg.c_str(), 0, 10) : (unsigned)strtoul(arg.c_str(), 0, 10);
+            size_t cur0 = L.size(), right0 = R.size();
+            int r = as_int ? s->del_i((int)n) : s->del(n);
             size_t k = std::min<size_t>(n, R.size());
             R.erase(0, k);
-            if (r != (int)k) fail("delete result");
+            if (r != (int)k) fail("delete removed " + std::to_string(r) + " characters, min(count, characters right of the cursor) = " + std::to_string(k));
             if (k) o.tag("delete");
             if (k < n) o.tag("delete-clamped");
+            count_tags(o, "delete", n, cur0, right0, as_int);
             ret = std::to_string(r);
             break;
         }
@@ -1886,6 +1910,85 @@ static void gen(hv::rng &r, const std::string &tier)
                 for (unsigned typed = 0; typed <= 3; typed += 3)
                     emit(std::string("lh ") + VAR[var] + " 5 1 " + m + " " + hx(std::string("abcdef").substr(0, typed + (typed ? 1 : 0))));
     }
+    // =================================================================== round 3b
+    // ---- every count parameter over the whole range of its C type (seeded change C15-sline-delete-clamp-wrap was
+    //      missed: a clamp written `cursor + count > len` wraps for count > UINT_MAX - cursor, and the stream never
+    //      passed a count above cap + 2).  sline_backspace / sline_delete (unsigned int) and igris::sline::backspace /
+    //      del (int): 0, 1, exactly what is there, one more, INT_MAX, INT_MAX + 1u, UINT_MAX - cursor,
+    //      UINT_MAX - cursor + 1, UINT_MAX - 1, UINT_MAX, and as an int -1, -2, INT_MIN, INT_MAX; cursor at 0, 1, the
+    //      middle, the end; line half full and full; then getline, an insert, getline (what a wrapped len would break)
+    for (int var = 0; var < 2; var++)
+        for (unsigned cap : {6u, 8u})
+            for (unsigned cur : {0u, 1u, 2u, 5u})
+                for (int which = 0; which < 2; which++)
+                {
+                    const unsigned len = 5;
+                    unsigned there = which ? len - cur : cur; // characters a delete / a backspace can remove
+                    std::vector<std::string> counts;
+                    for (uint64_t c : {(uint64_t)0, (uint64_t)1, (uint64_t)there, (uint64_t)there + 1, (uint64_t)0x7fffffff, (uint64_t)0x80000000u,
+                                       (uint64_t)0xffffffffu - cur, (uint64_t)0xffffffffu - cur + 1, (uint64_t)0xfffffffeu, (uint64_t)0xffffffffu,
+                                       (uint64_t)0xffffffffu - there, (uint64_t)0x100000000ull - len})
+                        if (c <= 0xffffffffull) counts.push_back(std::string(which ? "d" : "b") + std::to_string(c));
+                    for (long c : {-1L, -2L, -2147483647L - 1, 2147483647L, 1L, -(long)cur, -(long)len})
+                        counts.push_back(std::string(which ? "D" : "B") + std::to_string(c));
+                    for (const std::string &c : counts)
+                    {
+                        std::string s = std::string("sl ") + VAR[var] + " " + std::to_string(cap) + " n6162636465";
+                        for (unsigned j = cur; j < len; j++) s += " l";
+                        emit(s + " " + c + " g p78 g " + c + " g");
+                    }
+                }
+    // the same on a line without a buffer, on the smallest buffers and on a lazily mapped one of 2^32 - 1 bytes
+    for (const char *c : {"b4294967295", "d4294967295", "B-1", "D-1", "d2147483648", "b2147483648"})
+    {
+        emit(std::string("sl c 0 ") + c + " g");
+        emit(std::string("sl x 0 ") + c + " g");
+        emit(std::string("sl c 1 ") + c + " p61 " + c + " g");
+        emit(std::string("sl x 2 p61 ") + c + " p62 l " + c + " g");
+        emit(std::string("sl c 4294967295 p61 p62 p63 l ") + c + " g p64 g");
+    }
+    // random histories in which backspace / delete counts come from the whole range
+    for (int i = 0; i < (th ? 3000 : 400); i++)
+    {
+        unsigned cap = (unsigned)r.range(2, 12);
+        bool vx = r.below(2);
+        std::string s = std::string("sl ") + VAR[vx] + " " + std::to_string(cap);
+        size_t n = r.range(2, 30);
+        for (size_t j = 0; j < n; j++)
+        {
+            unsigned p = (unsigned)r.below(100);
+            if (p < 30) s += " p" + hv::hexn(r.range(0x61, 0x7a), 2);
+            else if (p < 40) { std::string d; size_t m = r.range(0, cap + 1); for (size_t q = 0; q < m; q++) d.push_back((char)r.range(0x41, 0x5a)); s += " n" + hx(d); }
+            else if (p < 62)
+            {
+                const char *k = r.chance(50) ? "bB" : "dD";
+                if (r.chance(40))
+                {
+                    // as an int: small, negative small (= UINT_MAX - k + 1), the ends of the range
+                    static const long V[] = {-1, -2, -3, -4, -5, -6, -7, -8, -12, -2147483647L - 1, 2147483647L, -2147483647L, 0, 1, 2, 3};
+                    s += std::string(" ") + k[1] + std::to_string(V[r.below(16)]);
+                }
+                else
+                {
+                    uint64_t c = r.chance(40) ? 0xffffffffull - r.below(cap + 2) : r.chance(30) ? 0x7fffffffull + r.below(3) : r.chance(50) ? 0x100000000ull - 1 - r.below(14) : r.range(0, cap + 1);
+                    s += std::string(" ") + k[0] + std::to_string(c);
+                }
+            }
+            else if (p < 80) s += " l";
+            else if (p < 88) s += " r";
+            else if (p < 90) s += " z";
+            else s += " g";
+        }
+        emit(s);
+    }
+    // the twins on the same huge counts (struct sline's unsigned parameter against igris::sline's int)
+    for (const char *c : {"b4294967295", "d4294967295", "B-1", "D-1", "d4294967294", "b2147483648", "D-2147483648", "d2147483647"})
+        for (unsigned cur = 0; cur <= 3; cur++)
+        {
+            std::string s = "ts 5 n616263";
+            for (unsigned j = cur; j < 3; j++) s += " l";
+            emit(s + " " + c + " g p78 g");
+        }
     // ---- one long session (>= 300 KiB of keys) per variant
     emit("vl c 6 3 310000 " + std::to_string(gen_seed));
     emit("vl x 5 2 " + std::string(th ? "310000 " : "40000 ") + std::to_string(gen_seed + 7));
